@@ -36,6 +36,7 @@ type VisOp struct {
 	Enabled func() bool // nil: always enabled
 	Fire    func()
 	Obj     any
+	ObjIDs  []int
 	// channel operations
 	Cases      []selCase
 	HasDefault bool
@@ -43,12 +44,14 @@ type VisOp struct {
 }
 
 type mutexState struct {
+	id      int
 	locked  bool
 	owner   int
 	readers int
 	vc      []int
 }
 type wgState struct {
+	id int
 	n  int
 	vc []int
 }
@@ -62,6 +65,92 @@ type transition struct {
 	peer *G
 	pi   int
 	desc string
+}
+
+// key identifies a transition across re-executions of the same path prefix.
+func (t transition) key() string {
+	if t.peer != nil {
+		return fmt.Sprintf("g%d.%d>g%d.%d", t.g.id, t.ci, t.peer.id, t.pi)
+	}
+	return fmt.Sprintf("g%d.%d:%s", t.g.id, t.ci, t.desc)
+}
+
+// footprint: goroutines and synchronisation objects a transition touches (universal: conflicts with everything).
+type footprint struct {
+	gs        []int
+	objs      []int
+	universal bool
+}
+
+func objID(o any) (int, bool) {
+	switch x := o.(type) {
+	case *mutexState:
+		return x.id, true
+	case *wgState:
+		return x.id, true
+	case *ChanObj:
+		if x == nil {
+			return 0, false
+		}
+		return x.id, true
+	case *CtxObj:
+		return x.done.id, true
+	}
+	return 0, false
+}
+
+func (ex *Exec) footprintOf(t transition) footprint {
+	fp := footprint{gs: []int{t.g.id}}
+	if t.peer != nil {
+		fp.gs = append(fp.gs, t.peer.id)
+	}
+	op := t.g.pending
+	if op.Simple {
+		if op.Kind == "yield" {
+			return fp
+		}
+		if len(op.ObjIDs) > 0 {
+			fp.objs = op.ObjIDs
+			return fp
+		}
+		if id, ok := objID(op.Obj); ok {
+			fp.objs = []int{id}
+		} else {
+			fp.universal = true
+		}
+		return fp
+	}
+	if t.ci < 0 {
+		for _, c := range op.Cases {
+			if c.Ch != nil {
+				fp.objs = append(fp.objs, c.Ch.id)
+			}
+		}
+		return fp
+	}
+	fp.objs = []int{op.Cases[t.ci].Ch.id}
+	return fp
+}
+
+func independent(a, b footprint) bool {
+	if a.universal || b.universal {
+		return false
+	}
+	for _, x := range a.gs {
+		for _, y := range b.gs {
+			if x == y {
+				return false
+			}
+		}
+	}
+	for _, x := range a.objs {
+		for _, y := range b.objs {
+			if x == y {
+				return false
+			}
+		}
+	}
+	return true
 }
 
 func (ex *Exec) enabledTransitions() []transition {
@@ -233,26 +322,38 @@ func (ex *Exec) schedule() {
 			}
 			return
 		}
+		// sleep sets: transitions already explored from an equivalent state are not taken again
+		var awake []int
+		for i, t := range ts {
+			if _, asleep := ex.sleep[t.key()]; !asleep {
+				awake = append(awake, i)
+			}
+		}
+		if len(awake) == 0 {
+			panic(pathEnd{StInfeasible, "sleep-set blocked (redundant interleaving)"})
+		}
 		var pick int
-		if len(ts) == 1 {
-			pick = 0
-		} else {
+		var ordered []int
+		{
 			// preemption bounding: once the budget is used only the last-run goroutine may continue (if it can)
-			cand := make([]int, 0, len(ts))
+			cand := make([]int, 0, len(awake))
 			lastEnabled := false
 			for _, t := range ts {
 				if ex.lastG != nil && t.involves(ex.lastG) {
 					lastEnabled = true
 				}
 			}
-			for i, t := range ts {
+			for _, i := range awake {
+				t := ts[i]
 				if ex.E.Cfg.MaxPreempt >= 0 && lastEnabled && ex.preempts >= ex.E.Cfg.MaxPreempt && !t.involves(ex.lastG) {
 					continue
 				}
 				cand = append(cand, i)
 			}
+			if len(cand) == 0 {
+				panic(pathEnd{StInfeasible, "sleep-set blocked under preemption bound"})
+			}
 			// prefer continuing the last goroutine first (DFS order)
-			ordered := make([]int, 0, len(cand))
 			for _, i := range cand {
 				if ex.lastG != nil && ts[i].involves(ex.lastG) {
 					ordered = append(ordered, i)
@@ -274,6 +375,17 @@ func (ex *Exec) schedule() {
 			pick = ordered[k]
 			if lastEnabled && !ts[pick].involves(ex.lastG) {
 				ex.preempts++
+			}
+			// earlier siblings go to sleep in this branch
+			for _, i := range ordered[:k] {
+				ex.sleep[ts[i].key()] = ex.footprintOf(ts[i])
+			}
+		}
+		// transitions dependent on the chosen one wake up
+		chosen := ex.footprintOf(ts[pick])
+		for key, fp := range ex.sleep {
+			if !independent(fp, chosen) {
+				delete(ex.sleep, key)
 			}
 		}
 		t := ts[pick]
